@@ -1,4 +1,4 @@
-CONSTANTS Base = 0 MaxVers = 3 MaxGrow = 3 CVals = {1, 2} AVals = {1, 2} CheckRefine = TRUE
+CONSTANTS Bases = {0} MaxVers = 3 MaxGrow = 3 CVals = {1, 2} AVals = {1, 2} CheckRefine = TRUE
 SPECIFICATION Spec
 VIEW View
 INVARIANT Canonical
